@@ -85,10 +85,11 @@
 //     npm "0" / "0.0" / "00" are not valid semver; npm is queried with 0.0.0 and 0.0.0+build instead.
 //   - a version the ecosystem cannot parse that is NOT listed explicitly while ranges are present
 //     (phase G only generates: listed explicitly => affected; not listed and no range => not affected).
-//   - package names that differ but are equal after lower-casing and removing every '-', '_', '.'
-//     (a superset of PEP 503 / any ecosystem's normalisation): whether such a record matches is not
-//     stated. Phase H skips exactly those (record name, queried name) pairs, counted in
-//     dont_care_skipped; byte-identical names must match, names with different keys must not.
+//   - PyPI package names that differ but are equal under PEP 503 (lower-case, runs of '-', '_', '.'
+//     collapsed): whether such a record matches is not stated. Phase H skips exactly those (record
+//     name, queried name) pairs, counted in dont_care_skipped. npm and Maven define no such
+//     equivalence: there any byte-wise difference (case, '-' vs '_' vs '.') is another package and
+//     must not match. Byte-identical names must match everywhere.
 //   - ecosystem strings with a ":suffix" (decoys use the three plain ecosystem names).
 package main
 
@@ -776,17 +777,31 @@ func (c *canon) listed(perm []int) []rEvent {
 	return out
 }
 
-// nameKey is the coarsest normalisation any ecosystem applies to package names and then some:
-// lower-case, with every '-', '_' and '.' removed. Two names with different keys are different
-// packages under every normalisation; two different names with the same key are "equal only up to
-// normalisation" (don't-care).
-func nameKey(n string) string {
+// nameKey is the name equivalence an ecosystem itself defines. PyPI: PEP 503 — lower-case, every
+// run of '-', '_', '.' is one '-'. npm and Maven define none: names are case-sensitive and compared
+// byte for byte ("JSONStream" and "jsonstream", "left-pad" and "left_pad", "com.example:Alpha" and
+// "com.example:alpha" are different packages). Two names with different keys are different
+// packages; two different names with the same key (PyPI only) are "equal only up to the
+// ecosystem's normalisation" (don't-care).
+func nameKey(eco, n string) string {
+	if eco != "PyPI" {
+		return n
+	}
 	var b strings.Builder
+	sep := false
 	for _, r := range strings.ToLower(n) {
 		if r == '-' || r == '_' || r == '.' {
+			sep = true
 			continue
 		}
+		if sep {
+			b.WriteByte('-')
+			sep = false
+		}
 		b.WriteRune(r)
+	}
+	if sep {
+		b.WriteByte('-')
 	}
 	return b.String()
 }
@@ -1494,8 +1509,9 @@ func main() {
 			}
 		case "H":
 			// package names: the queried package is named q; record entries are named r, for every
-			// r of the alphabet. r == q byte-for-byte: the entry counts. nameKey(r) != nameKey(q):
-			// the entry never counts. Otherwise (equal up to normalisation only): don't-care.
+			// r of the alphabet. r == q byte-for-byte: the entry counts. nameKey(r) != nameKey(q)
+			// (npm, Maven: any byte-wise difference): the entry never counts. Otherwise (PyPI names
+			// equal only up to PEP 503): don't-care.
 			q := e.names[it.qn]
 			pkgs := make([]*extractor.Package, len(e.probes))
 			for pi, pv := range e.probes {
@@ -1514,7 +1530,7 @@ func main() {
 				return w
 			}
 			for _, rn := range e.names {
-				if rn != q && nameKey(rn) == nameKey(q) {
+				if rn != q && nameKey(e.osv, rn) == nameKey(e.osv, q) {
 					st.skipped += int64(len(e.probes))
 					continue // equal only up to normalisation
 				}
